@@ -593,3 +593,8 @@ def run(report, repo):
   report.guard(c14.r1_acks, report, repo)
   from sa.rules import extra4 as _x4  # pylint: disable=g-import-not-at-top
   report.guard(_x4.errors_do_not_reformat, report, repo, 'C15-R9')
+  from sa.rules import extra5 as _e5b  # pylint: disable=g-import-not-at-top
+  from sa.rules import extra4 as _e4  # pylint: disable=g-import-not-at-top
+  report.guard(_e4.read_until_close_drains, report, repo, 'C15-R10')
+  from sa.rules import extra5 as _e5c  # pylint: disable=g-import-not-at-top
+  report.guard(_e5c.read_until_filters_only_by_command, report, repo, 'C15-R11')
